@@ -29,7 +29,7 @@ TRUSTED = [
     "to KD_REPO by this run's correspondence evaluation (single constructions and, for a quarter of the cases, the "
     "selection seen through a second wrapper constructed on top, with that constructor's recorded draws)",
     "ClassFilterWrapper by name: class names are compared as exact strings (what np.isin does on numpy unicode arrays: "
-    "case and blanks matter, the empty string is a name); numpy's stripping of trailing NUL characters is outside the "
+    "case and blanks matter, the empty string is a name; a name argument that is one bare string names exactly the class(es) whose name EQUALS it, never the classes whose names occur inside it); numpy's stripping of trailing NUL characters is outside the "
     "generated names (ASCII letters, digits, blanks)",
     "construction_leaves_labels_unchanged (the harness-checked counterpart of the model's purity): in the model every "
     "selection function receives the label list BY VALUE, so theorem later_constructor_sees_pristine_labels is true by "
@@ -87,7 +87,7 @@ RULE = ("class layouts of size 0-64 (thorough -200) over C in 1..6 with absent, 
         "of these dtypes, 10 % of them with uint8 / int8 labels on 128-300 samples (more than the dtype counts) or over C = 128 "
         "/ 256 classes with the top label present (the dtype's maximum); class filters by number (incl. -1 and a non-class) and by NAME: class_names unique or "
         "drawn from a few names (several classes per name), incl. '' and names differing in case / blanks only; requested "
-        "names known / unknown / variants of known ones / repeated / none / all; a quarter of the cases construct a second "
+        "names known / unknown / variants of known ones / parts of names / strings containing names / repeated / none / all, a quarter of the name sets made of names that are substrings / prefixes / suffixes of one another; the names handed over as list / tuple / str ndarray / object ndarray or (35 %) as ONE BARE STRING (str / numpy.str_); a quarter of the cases construct a second "
         "wrapper on top of and next to the first on the same dataset; oversampling layouts with class counts (c, k*c + d), d in -1..1, c incl. 41, 47, 55, 61; "
         "13 constructor kinds; percents from {0, 1, k/n, k/n +- ulp, k/8, random}; index bounds incl. 0, n, beyond n; "
         "seeds from {None, 0, False, True, numpy 0, 1, 2**32-1, 2**32, 2**63, 2**64+k, random}; "
@@ -315,12 +315,45 @@ def requested_names(call):
     return list(call["req"]) if "req" in call else ["c%d" % c for c in call["cls"]]
 
 
+REQ_FORMS = ("list", "tuple", "ndarray", "ndarray_obj", "str", "np_str")
+
+
+def req_form(call):
+    """the form in which the requested names are handed over; the one-bare-string forms need exactly one name"""
+    f = call.get("req_form", "list")
+    if f in ("str", "np_str") and len(requested_names(call)) != 1:
+        return "list"
+    return f
+
+
+def requested_arg(call):
+    """the object passed as valid_class_names / invalid_class_names: a list / tuple / ndarray of names, or ONE name as a
+    bare string (names exactly the classes whose name EQUALS it - what np.isin does with a scalar)"""
+    req, f = requested_names(call), req_form(call)
+    if f == "tuple":
+        return tuple(req)
+    if f == "ndarray":
+        return _classes()["np"].array(req, dtype=str)
+    if f == "ndarray_obj":
+        return _classes()["np"].array(req, dtype=object)
+    if f == "str":
+        return req[0]
+    if f == "np_str":
+        return _classes()["np"].str_(req[0])
+    return req
+
+
+def _plain_args(kwargs):
+    """constructor arguments in a form that == compares element by element (ndarray arguments: dtype + elements)"""
+    return {k: (type(v).__name__, str(v.dtype), v.tolist()) if hasattr(v, "tolist") else v for k, v in kwargs.items()}
+
+
 def _call_args(call):
     """(wrapper class name, keyword arguments) of one constructor call"""
     w = call["w"]
     if w == "class_filter":
         if by_name(call):
-            return "ClassFilterWrapper", {("valid_class_names" if call["valid"] else "invalid_class_names"): requested_names(call)}
+            return "ClassFilterWrapper", {("valid_class_names" if call["valid"] else "invalid_class_names"): requested_arg(call)}
         return "ClassFilterWrapper", {("valid_classes" if call["valid"] else "invalid_classes"): list(call["cls"])}
     if w == "percent":
         return "PercentFilterWrapper", dict(from_percent=call["from"], to_percent=call["to"],
@@ -382,7 +415,7 @@ class _Session:
         try:
             return K[name](self.ds if base is None else base, **kwargs)
         finally:
-            if kept != kwargs:
+            if _plain_args(kept) != _plain_args(kwargs):
                 _EVENTS.append({"after": where, "what": "constructor arguments", "before": repr(kept), "now": repr(kwargs),
                                 "provider": self.prov})
             self.verify(where)
@@ -726,7 +759,7 @@ def oracle(case, obs):
             req = requested_names(case)
             wanted = [0 <= cl[i] < case["C"] and names[cl[i]] in req for i in range(n)]
             r = need([i for i in range(n) if wanted[i] == case["valid"]],
-                     f"the samples whose class name is {'' if case['valid'] else 'not '}in {req} (class names {names}) in order")
+                     f"the samples whose class name is {'' if case['valid'] else 'not '}in {req} (handed over as {req_form(case)}: {requested_arg(case)!r}; class names {names}) in order")
             if r is None and obs.get("by_number") != out:
                 r = (f"class_filter: {'valid' if case['valid'] else 'invalid'}_class_names={req} selects {out}, "
                      f"{'valid' if case['valid'] else 'invalid'}_classes={named_classes(case)} (all classes carrying these "
@@ -1059,6 +1092,11 @@ def gen_over(rng, c):
 NAME_POOL = ["crane", "maillot", "tench", "hen", "Crane", "CRANE", "crane ", " crane", "cr ane", "", " ", "c0", "c1"]
 
 
+NESTED_NAMES = [["blackbird", "bird", "black", "blackbirds"], ["wildcat", "cat", "wild", "ca", "t"],
+                ["hen", "he", "en", "e", "then", "hens"], ["crane", "cran", "rane", "ran", "", "cranes"],
+                ["c1", "c10", "c", "1", "c11", "0c1"]]
+
+
 def gen_class_names(rng, c):
     """dataset.class_names: unique, or drawn from a few names (several classes carry the same name, as "crane" and
     "maillot" do in ImageNet), incl. the empty name and names differing in case / white space only"""
@@ -1070,11 +1108,14 @@ def gen_class_names(rng, c):
         return names
     if r < 0.15:
         return None                                   # the default: c0, c1, ...
-    if r < 0.25:
+    if r < 0.40:                                      # names that are substrings / prefixes / suffixes of one another
+        fam = rng.choice(NESTED_NAMES)
+        return rng.sample(fam, c) if c <= len(fam) and rng.random() < 0.7 else [rng.choice(fam) for _ in range(c)]
+    if r < 0.47:
         return [rng.choice(NAME_POOL)] * c
-    if r < 0.40:
+    if r < 0.58:
         return rng.sample(NAME_POOL, c)
-    if r < 0.60:                                      # one name in several spellings
+    if r < 0.72:                                      # one name in several spellings
         base = rng.choice(["crane", "maillot", "hen", "c0"])
         family = [base, base.capitalize(), base.upper(), base + " ", " " + base, base[:2] + " " + base[2:]]
         return [rng.choice(family) for _ in range(c)]
@@ -1097,8 +1138,13 @@ def gen_requested(rng, names):
             nm = rng.choice(names)
             if q < 0.70:
                 req.append(nm)
-            elif q < 0.85:
+            elif q < 0.80:
                 req.append(rng.choice([nm.upper(), nm.capitalize(), nm + " ", " " + nm, nm.strip(), nm.lower()]))
+            elif q < 0.90:                            # a part of a name / a longer string that contains names
+                k = rng.randint(0, len(nm))
+                other = rng.choice(names)
+                req.append(rng.choice([nm[:k], nm[k:], nm + other, other + nm, nm + nm, nm + "s", "x" + nm,
+                                       nm + " " + other, nm + "," + other]))
             else:
                 req.append(rng.choice(NAME_POOL + ["zebra", "c%d" % len(names)]))
     if req and rng.random() < 0.3:
@@ -1141,6 +1187,15 @@ def gen_case(rng, big=False, kind=None):
             case["class_names"] = names
         for call in calls:
             call["req"] = gen_requested(rng, names or default_names(case["C"]))
+            q = rng.random()
+            if q < 0.35:                              # one name (or a longer string containing names) as ONE BARE STRING
+                if len(call["req"]) != 1:
+                    nm = names or default_names(case["C"])
+                    call["req"] = [rng.choice(call["req"] + nm) if rng.random() < 0.7 else
+                                   rng.choice(["", " ", ","]).join(rng.sample(nm, min(len(nm), 2)))]
+                call["req_form"] = "str" if rng.random() < 0.8 else "np_str"
+            elif q < 0.65:
+                call["req_form"] = rng.choice(["tuple", "ndarray", "ndarray_obj"])
     return case
 
 
@@ -1258,6 +1313,11 @@ def features(case, obs):
             req = requested_names(call)
             dup = {x for x in names if names.count(x) > 1}
             yield tag + "=" + ("unique" if not dup else "duplicate-requested" if dup & set(req) else "duplicate-not-requested")
+            yield tag + "_form=" + req_form(call)
+            if req_form(call) in ("str", "np_str"):
+                inside = [x for x in set(names) if x != req[0] and x in req[0]]
+                yield tag + "_bare_string=" + ("equals-a-name" if req[0] in names else "no-name") + \
+                    ("+contains-other-names" if inside else "")
             yield tag + "_requested=" + ("none" if not req else "all" if set(names) <= set(req) else
                                          "+".join(sorted({"known" if x in names else "unknown" for x in req}
                                                          | ({"repeated"} if len(set(req)) < len(req) else set()))))
